@@ -115,3 +115,26 @@ Ltac run :=
        mr_op mg_op mi_op int_op].
 Ltac step := run; cbn [Pos.eqb]; pos_facts; cbv iota.
 Ltac solve_op := step; repeat (first [split_cond | split_pair]; step); try reflexivity.
+
+(* what remains when the code takes a different route for an aliased destination (the &res == &b tests of the
+   Integer fused forms): the two routes compute the same integer *)
+Ltac bool_hyps :=
+  repeat match goal with
+         | H : _ || _ = true |- _ => apply orb_true_iff in H; destruct H
+         | H : _ || _ = false |- _ => apply orb_false_iff in H; destruct H
+         | H : _ && _ = true |- _ => apply andb_true_iff in H; destruct H
+         | H : (_ =? _) = true |- _ => apply Z.eqb_eq in H
+         | H : (_ =? _) = false |- _ => apply Z.eqb_neq in H
+         end.
+Ltac fin := try reflexivity; bool_hyps; try (f_equal; nia); try nia.
+
+(* ------------------------------------------------------------------ the ring interface as a family of operations
+   operation numbers of Model.mr_op / mg_op / mi_op:
+   0 add 1 sub 2 mul 3 div 4 neg 5 inv 6 axpy 7 axmy 8 maxpy            (destination is only written)
+   9 axpyin 10 axmyin 11 maxpyin 12 addin 13 subin 14 mulin 15 divin 16 negin 17.. invin   (destination is also read) *)
+Definition Ring_alias_free (f : nat -> op4) : Prop :=
+  (forall n, (n <= 8)%nat -> Pure_dest (f n)) /\
+  (forall n, (9 <= n)%nat -> Inplace (f n)) /\
+  (forall n, Frame (f n)).
+Ltac cases_nat k n := lazymatch k with O => idtac | S ?k' => destruct n as [|n]; [ | cases_nat k' n ] end.
+Ltac each_op n := cases_nat 18%nat n; try lia.
